@@ -304,6 +304,9 @@ func CheckMain(root, id, tier string, seed uint64) int {
 	raceWorkers := 0
 	if p.Race {
 		raceWorkers = ncpu / 2
+		if p.RaceWorkers > 0 && p.RaceWorkers < raceWorkers {
+			raceWorkers = p.RaceWorkers
+		}
 		if raceWorkers < 1 {
 			raceWorkers = 1
 		}
